@@ -1074,6 +1074,11 @@ class VectorQuantize(Module):
         if need_transpose:
             x = rearrange(x, 'b d n -> b n d')
 
+        # padded positions must not influence anything, zero them out before projecting and quantizing
+
+        if exists(mask):
+            x = einx.where('b n, b n d, -> b n d', mask, x, 0.)
+
         # project input
 
         x = self.project_in(x)
